@@ -51,6 +51,31 @@ def judge(res: Result, case: Dict[str, Any], vals: List[Any], typ, k: int, get_t
     res.outcomes.add(hash(ref[0]))
     if arm != "all_equal":
         res.nontrivial_n += 1
+    # the same collection merged the way stub generation merges it: one call trace per value (argument, return and yield
+    # position), in both orders and with one duplicated trace - every value is a member at every position and the merged
+    # types are the direct merge
+    if n >= 2 and k in (0, 2, 10):
+        from monkeytype.stubs import shrink_traced_types
+        from monkeytype.tracing import CallTrace
+
+        import vfx.shapes as S
+
+        first = None
+        for order in (tuple(range(n)), tuple(reversed(range(n))), tuple(range(n)) + (n,)):
+            res.transitions += 1
+            traces = [CallTrace(S.genfunc, {"n": types[i]}, types[i], types[i]) for i in order]
+            try:
+                args, ret, yld = shrink_traced_types(traces, k)
+            except Exception as e:  # noqa: BLE001
+                res.violate(Violation(ID, "exception", f"shrink_traced_types:{arm}", dict(case, order=list(order)), f"shrink_traced_types raised {e!r}"))
+                return
+            for label, TT in (("arg", args.get("n")), ("return", ret), ("yield", yld)):
+                if TT is None or any(not O.member(v, TT) for v in vals):
+                    res.violate(Violation(ID, "nonmember", f"traces:{label}:{arm}", dict(case, order=list(order)), f"merged {label} type of the traces is {O.show(TT) if TT is not None else None}: not every value of {case['values']} is a member"))
+                    return
+                if O.struct(TT) != ref[0]:
+                    res.violate(Violation(ID, "order", f"traces:{label}:{arm}", dict(case, order=list(order)), f"merged {label} type of the traces {O.show(TT)} differs from the direct merge {O.show(ref[1])}"))
+                    return
 
 
 def run(ctx: Ctx) -> Result:
